@@ -2,6 +2,7 @@ import A2Verif.Model.Hex
 import A2Verif.Model.Detok
 import A2Verif.Model.Retok
 import A2Verif.Model.Merlin
+import A2Verif.Model.ToolState
 /-!
 driver family `c14` — requests (bytes as upper-case hex, empty = `-`, numbers decimal):
 
@@ -18,6 +19,11 @@ driver family `c14` — requests (bytes as upper-case hex, empty = `-`, numbers 
 * `c14 detokM <hex>`            → `ok <hex of text>` | `err`   (Merlin detokenizer + column formatter; runs of blanks collapsed)
 * `c14 wfM <hex>`               → `true` | `false`
 * `c14 numI <value>`            → `<hex>` of the Integer BASIC number token for the value
+* `c14 sessI <line>* ( | <line>* )*` → results of a SESSION on one Integer BASIC tokenizer object, one per call, joined by
+  ` | `: `ok <hex>` | `err`.  `<line>` = `<num>:<hex>` (tokens the walk produced for the source line) or `R` (the walk
+  refused the line).  The object is the state machine `ToolState.tokenizeI` in the variant the translator read from the
+  current source (`IVariant.current`).
+* `c14 sessA <addr> <line>* ( | <addr> <line>* )*` → same for the Applesoft tokenizer object (`ok`/`err`/`panic`)
 -/
 namespace A2Verif.Drv.C14
 open A2Verif.Detok A2Verif.Hex
@@ -42,8 +48,37 @@ def collapseBlanks : List Nat → List Nat
   | c :: rest => c :: collapseBlanks rest
   | [] => []
 
+def parseLineIn (s : String) : Option A2Verif.ToolState.LineIn :=
+  if s == "R" then some .rej else (parseLine s).map .ok
+
+/-- split a token list at the `|` tokens -/
+def splitCalls : List String → List (List String)
+  | [] => [[]]
+  | t :: ts =>
+    match splitCalls ts with
+    | c :: cs => if t == "|" then [] :: c :: cs else (t :: c) :: cs
+    | [] => [[t]]
+
+def parseCallA (c : List String) : Option (Nat × List A2Verif.ToolState.LineIn) :=
+  match c with
+  | a :: ls =>
+    match a.toNat?, ls.mapM parseLineIn with
+    | some addr, some lines => if addr < 65536 then some (addr, lines) else none
+    | _, _ => none
+  | [] => none
+
 def handle (toks : List String) : String :=
   match toks with
+  | "sessI" :: rest =>
+    match (splitCalls rest).mapM (fun c => c.mapM parseLineIn) with
+    | some calls =>
+      " | ".intercalate ((A2Verif.ToolState.sessionOutI A2Verif.ToolState.IVariant.current A2Verif.ToolState.TokSt.fresh calls).map showOutcome)
+    | none => "bad-request"
+  | "sessA" :: rest =>
+    match (splitCalls rest).mapM parseCallA with
+    | some calls =>
+      " | ".intercalate ((A2Verif.ToolState.sessionOutA A2Verif.ToolState.AVariant.current A2Verif.ToolState.ATokSt.fresh calls).map showOutcome)
+    | none => "bad-request"
   | ["detokA", h] =>
     match ofHex h with
     | some bs => showOutcome (detokA bs)
